@@ -111,6 +111,59 @@ NATIVES = {
 }
 
 
+# fresh objects handed from one script callback to the next by a native (the value lives only in the native's
+# locals between the two calls), and natives that read their sources through getters / iterators / ToPrimitive
+PAIRS = {
+    "stringify-toJSON-then-replacer": "JSON.stringify({id:7,total:{toJSON:function(){ return A(1); }},items:[{toJSON:function(){ return A(2); }},{toJSON:function(){ return mk(); }}]},function(k,v){ var t=A(0); return v; })",
+    "stringify-toJSON-replacer-wraps": "JSON.stringify([{toJSON:function(){ return A(1); }},{toJSON:function(){ return A(2); }}],function(k,v){ return (v&&v.w&&k!=='wrapped') ? {wrapped:v,extra:A(9)} : v; })",
+    "stringify-getter-then-toJSON": "JSON.stringify({get a(){ return {toJSON:function(){ return A(1); }}; }, get b(){ return A(2); }},function(k,v){ A(0); return v; })",
+    "stringify-allowlist-getters": "JSON.stringify({get w(){ return A(1); }, get s(){ return A(2).s; }, x:3},['w','s','a'])",
+    "stringify-nested-toJSON-indent": "JSON.stringify({a:{toJSON:function(){ return {b:{toJSON:function(){ return A(1); }},c:[A(2)]}; }}},null,1)",
+    "parse-reviver-fresh-nested": "J(JSON.parse('{\"a\":[1,[2,{\"b\":3}]],\"c\":{\"d\":4}}',function(k,v){ return typeof v==='number' ? A(v) : (Array.isArray(v) ? v.concat([A(0)]) : v); }))",
+    "parse-reviver-deletes": "J(JSON.parse('{\"a\":1,\"b\":{\"c\":2,\"d\":3},\"e\":[4,5]}',function(k,v){ A(0); return k==='c'||k==='a' ? undefined : v; }))",
+    "assign-getter-to-setter": "(function(){ var t={set a(v){ this._a=[v,A(8)]; }, set b(v){ this._b=[v,A(9)]; }}; Object.assign(t,{get a(){ return A(1); }, get b(){ return mk(); }}); return J([t._a,t._b]); })()",
+    "entries-values-getters": "J([Object.entries({get a(){ return A(1); }, get b(){ return A(2); }}),Object.values({get a(){ return A(3); }, b:A(4), get c(){ return mk(); }})])",
+    "spread-getters": "J({...{get a(){ return A(1); }, get b(){ return A(2); }, c:A(3)}, ...{get d(){ return mk(); }}})",
+    "rest-getters": "(function(){ var {a,...r}={get a(){ return A(1); }, get b(){ return A(2); }, get c(){ return mk(); }}; return J([a,r]); })()",
+    "Array.from-generator-mapfn": "J(Array.from((function*(){ for (var i=0;i<4;i++) yield A(i); })(),function(x,i){ return [x,A(-i)]; }))",
+    "Array.from-arraylike-getters": "J(Array.from({length:3,get 0(){ return A(0); },get 1(){ return A(1); },get 2(){ return mk(); }},function(x){ A(9); return x; }))",
+    "Map-ctor-generator-pairs": "(function(){ var m=new Map((function*(){ for (var i=0;i<4;i++) yield [A(i),A(-i)]; })()); return J([...m]); })()",
+    "Set-ctor-generator-fresh": "(function(){ var s=new Set((function*(){ for (var i=0;i<4;i++) yield A(i); })()); return J([...s]); })()",
+    "Map-ctor-custom-iterator": "(function(){ var n=0; var it={[Symbol.iterator]:function(){ return {next:function(){ n++; return n>3 ? {done:true} : {done:false,value:[A(n),mk()]}; }}; }}; return J([...new Map(it)]); })()",
+    "sort-comparator-fresh-elements": "J(mk().map(function(x){ return A(x.v); }).sort(function(a,b){ var t=A(0); return b.w-a.w; }))",
+    "sort-merge-large": "(function(){ var a=[]; for (var i=0;i<9;i++) a.push(A((i*5)%9)); return J(a.sort(function(x,y){ A(0); return x.w-y.w; }).map(function(o){ return o.w; })); })()",
+    "toPrimitive-symbol": "(function(){ var o={[Symbol.toPrimitive]:function(h){ var t=A(1); return h==='number' ? t.w : t.s; }}; return J([+o,`${o}`,o+'',[o,o].join('-'),o*2]); })()",
+    "join-toString-allocating": "J([[{toString:function(){ return A(1).s; }},[{toString:function(){ return A(2).s; }}]],[A(3).s]].join('|'))",
+    "replaceAll-fn-fresh": "'a-b-c-d'.replaceAll('-',function(m,i,str){ return A(i).s + mk().length; })",
+    "replace-named-groups": "J('2020-01 2021-02'.replace(/(?<y>\\d{4})-(?<m>\\d\\d)/g,function(){ var g=arguments[arguments.length-1]; return J([g.y,A(1).w]); }))",
+    "matchAll-groups": "J([...'a1b22'.matchAll(/(?<d>\\d+)/g)].map(function(m){ return [m.groups.d,A(1).s,m.index]; }))",
+    "generator-return-through-yielding-finally": "(function(){ function* g(){ try { yield A(1); } finally { yield A(2); A(3); } } var it=g(); var a=it.next(); var b=it.return(A(5)); var c=it.next(); return J([a,b,c]); })()",
+    "generator-throw-into-yield-star": "(function(){ function* inner(){ try { yield A(1); } catch (e) { yield [e,A(2)]; } finally { A(3); } } function* outer(){ var r=yield* inner(); yield A(4); } var it=outer(); var a=it.next(); var b=it.throw(A(5)); var c=it.next(); return J([a,b,c]); })()",
+    "generator-block-scopes-across-yield": "(function(){ function* g(){ let o=A(0); { let o2=A(1); yield o2; { let o3=A(2); yield [o2,o3]; } } yield o; } return J([...g()]); })()",
+    "yield-star-iterator-error": "(function(){ var bad={[Symbol.iterator]:function(){ return {next:function(){ throw A(7); }}; }}; function* g(){ try { yield* bad; } catch (e) { yield [e,A(1)]; } } return J([...g()]); })()",
+    "array-rest-from-iterator": "(function(){ var [a,...r]=new Set([A(1),A(2),A(3)]); var [b,...q]=(function*(){ yield A(4); yield A(5); })(); return J([a,r,b,q]); })()",
+    "object-rest-computed": "(function(){ var k='w'; var {[k]:x,...r}=A(1); return J([x,r,A(2)]); })()",
+    "defineProperty-existing": "(function(){ var o=A(1); Object.defineProperty(o,'a',{value:mk()}); Object.defineProperty(o,'n',{get:function(){ return A(2); },enumerable:true}); return J([o,Object.getOwnPropertyDescriptors(o).a.value,Object.getOwnPropertyNames([A(3)])]); })()",
+    "sealed-array-ops": "(function(){ var a=Object.seal([A(1),A(2),A(3)]); var r=[]; try { a.shift(); } catch (e) { r.push(e.name,A(4)); } try { a.splice(1,1); } catch (e) { r.push(e.name); } return J([a,r]); })()",
+    "class-private-in-and-newtarget": "(function(){ class B { #m(){ return A(1); } static has(o){ return #m in o; } constructor(){ this.t=new.target.name; this.v=this.#m(); } } class D extends B { d=A(2); } return J([new D(),B.has(new D()),B.has(A(3))]); })()",
+    "class-symbol-iterator-method": "(function(){ class K { *[Symbol.iterator](){ yield A(1); yield A(2); } } return J([...new K(),Array.from(new K())]); })()",
+    "structuredClone-alloc": "J(typeof structuredClone==='function' ? structuredClone({a:A(1),m:new Map([[1,A(2)]]),s:new Set([A(3).s]),d:[mk()]}).a : 'n/a')",
+    "update-and-compound-on-getter": "(function(){ var o={_v:A(1),get v(){ return this._v.w; }, set v(x){ this._v=A(x); }}; o.v++; o.v+=2; return J(o._v); })()",
+}
+
+# programs whose interesting state is held by the promise machinery (several reactions on one promise, combinators)
+ASYNC = {
+    "then-three-handlers-one-promise": "var res; var p=new Promise(function(r){ res=r; }); var o=[]; p.then(function(v){ o.push(A(1)); }); p.then(function(v){ o.push(A(2),v); }); p.then(function(v){ o.push(v.a); }); res(A(3)); await p; await null; return o;",
+    "then-handlers-after-await": "var res; var p=new Promise(function(r){ res=r; }); var o=[]; p.then(function(v){ o.push(A(1)); return A(4); }).then(function(v){ o.push(v); }); p.then(function(v){ o.push(A(2)); }); await null; res(A(3)); await p; await null; await null; return o;",
+    "catch-finally-chain": "var o=[]; await Promise.reject(A(1)).catch(function(e){ o.push(e,A(2)); return A(3); }).finally(function(){ o.push(A(4)); }).then(function(v){ o.push(v); }); return o;",
+    "all-allSettled-fresh": "var r=await Promise.all([Promise.resolve(A(1)),A(2),new Promise(function(res){ res(A(3)); })]); var s=await Promise.allSettled([Promise.reject(A(4)),Promise.resolve(A(5))]); return [r,s];",
+    "race-any-fresh": "var r=await Promise.race([new Promise(function(){}),Promise.resolve(A(1))]); var a=await Promise.any([Promise.reject(A(2)),Promise.resolve(A(3))]); return [r,a];",
+    "async-generator-for-await": "async function* g(){ for (var i=0;i<3;i++) { yield A(i); await null; } } var o=[]; for await (var x of g()) { o.push(x,A(9)); } return o;",
+    "async-callee-in-finally": "async function inner(){ var t=A(1); await null; return t; } async function outer(){ try { return A(2); } finally { var k=await inner(); A(3); } } return [await outer()];",
+    "thenable-adoption": "var th={then:function(res){ res(A(1)); }}; var v=await th; var w=await Promise.resolve(th); return [v,w,A(2)];",
+    "await-in-loop-closures": "var fs=[]; for (let i=0;i<3;i++) { let o=A(i); await null; fs.push(function(){ return [o,A(-i)]; }); } return fs.map(function(f){ return f(); });",
+}
+
 # ------------------------------------------------------------------ state held across a suspension
 # holder positions (where a fresh, otherwise unreferenced object lives while the VM is suspended) x suspension kinds.
 # @S@ = suspending statement, @SV@ = suspending expression, @ASYNC@/@AWAIT@ = "async "/"await " for the await kinds.
@@ -170,6 +223,11 @@ def programs(tier):
         out.append({"id": "native|" + name, "src": PRE + expr})
         # the same expression executed inside a callee and inside a loop (different live temporaries)
         out.append({"id": "native-in-loop|" + name, "src": PRE + "var acc=[]; for (var q=0;q<2;q++) { var t=[q,A(q)]; acc.push(" + expr + ", t); } J(acc)"})
+    for name, expr in PAIRS.items():
+        out.append({"id": "pair|" + name, "src": PRE + expr})
+        out.append({"id": "pair-in-loop|" + name, "src": PRE + "var acc=[]; for (var q=0;q<2;q++) { var t=[q,A(q)]; acc.push(" + expr + ", t); } J(acc)"})
+    for name, body in ASYNC.items():
+        out.append({"id": "async|" + name, "src": PRE + "async function H(){ %s }\nJ(await H())" % body})
     fams = ["class", "pattern", "gen", "scope", "flow2"]
     for f in fams:
         cs = [c for c in gen01.FAMILIES[f]() if c.quick]
@@ -178,7 +236,7 @@ def programs(tier):
             out.append({"id": "c01|" + c.id, "src": c.src, "max_points": 150 if tier == "quick" else 600})
     if tier != "quick":
         for o in out:
-            if o["id"].startswith("native|"):
+            if o["id"].startswith("native|") or o["id"].startswith("pair|") or o["id"].startswith("async|"):
                 o["pairs"] = True
     return out
 
